@@ -236,8 +236,8 @@ def serveFetched (C : Codec) (cfg : Cfg) (kind : Kind) (file : Bytes) (foundSize
     | .ok (b, clean) => some { data := b, clean := clean, size := foundSize }
     | _ => none
 
-/-- the proxy branch of `get` after the reservation (index `l` already holds it) -/
-def fetchFromProxy (C : Codec) (d : Disk) (l : Lru) (kind : Kind) (hash : String) (size offset : Int)
+/-- the proxy branch of `get` once `size` bytes are reserved (index `l` holds the reservation) -/
+def fetchCore (C : Codec) (d : Disk) (l : Lru) (kind : Kind) (hash : String) (size offset : Int)
     (zstd : Bool) (pg : ProxyGet) (rnd : String) : Disk × GetOut :=
   match pg with
   | .error => ({ d with lru := release l size }, .err .e500)
@@ -258,6 +258,20 @@ def fetchFromProxy (C : Codec) (d : Disk) (l : Lru) (kind : Kind) (hash : String
           ({ d with lru := l3,
                     files := d.files ++ [(fileLocation kind legacy hash foundSize rnd, s.data)] }, .hit h)
         | (l3, c) => ({ d with lru := l3 }, .err c)
+
+/-- the proxy branch of `get`: when the size was unknown (nothing reserved yet) and the back end
+    announces an acceptable size, that size is reserved now — and the request refused when the
+    reservation is (hard limit, space held by other requests) — before the entry is fetched -/
+def fetchFromProxy (C : Codec) (d : Disk) (l : Lru) (kind : Kind) (hash : String) (size offset : Int)
+    (zstd : Bool) (pg : ProxyGet) (rnd : String) : Disk × GetOut :=
+  match pg with
+  | .found _ foundSize =>
+    if size ≤ 0 ∧ foundSize > 0 ∧ foundSize ≤ d.cfg.maxProxyBlobSize ∧ isSizeMismatch size foundSize = false then
+      match reserve l foundSize with
+      | (lr, some e) => ({ d with lru := lr }, .err (codeOfErr e))
+      | (lr, none) => fetchCore C d lr kind hash foundSize offset zstd pg rnd
+    else fetchCore C d l kind hash size offset zstd pg rnd
+  | _ => fetchCore C d l kind hash size offset zstd pg rnd
 
 /-- `diskCache.get` (Get / GetZstd), with the proxy's scripted answer and the random suffix the
     temp-file creator would pick for a fetched entry. -/
